@@ -12,10 +12,11 @@ from .envs import Pool, TermEnv, comps
 from .scalar import Cx, Undefined, close, from_tla, to_tla
 from .sem import Unsupported, eval_table
 
+MATH_OPS = ("exp", "ln", "sin", "cos", "tan", "sinh", "cosh", "tanh", "asin", "atan")
 IDX0 = 10  # index names in the spec are 10, 11, 12, ...
 
 
-def mc_module(name, pool, lits, zeros, idxpool, opset, maxnodes, maxrank, maxdim, finalops=(), levels=(), replmaps=()):
+def mc_module(name, pool, lits, zeros, idxpool, opset, maxnodes, maxrank, maxdim, finalops=(), levels=(), replmaps=(), zerofi=()):
     jets = hasattr(pool, "mode")
     if jets:
         from .envs import bd_tla
@@ -31,6 +32,7 @@ MC_TermVal ==
   {pool.tla_termval()}
 MC_Lits == {lit_txt}
 MC_Zeros == {zero_txt}
+MC_ZeroFi == <<{", ".join("<<" + ", ".join(f"<<{i}, {d}>>" for i, d in z) + ">>" for z in zerofi)}>>
 MC_IdxPool == <<{", ".join(map(str, idxpool))}>>
 MC_OpSet == {{{", ".join(json.dumps(o) for o in sorted(opset))}}}
 MC_FinalOps == {{{", ".join(json.dumps(o) for o in sorted(finalops))}}}
@@ -53,6 +55,7 @@ def mc_cfg(pool, maxnodes, maxrank, maxdim, final_only=False, mikinds=("fixed", 
         f"SeedTerm = \"{getattr(pool, 'seed_term', '') or ''}\"",
         "Lits <- MC_Lits",
         "Zeros <- MC_Zeros",
+        "ZeroFi <- MC_ZeroFi",
         "IdxPool <- MC_IdxPool",
         "OpSet <- MC_OpSet",
         "FinalOps <- MC_FinalOps",
@@ -83,7 +86,7 @@ def mc_cfg(pool, maxnodes, maxrank, maxdim, final_only=False, mikinds=("fixed", 
 class World:
     """Real ufl objects for a pool: one Coefficient per terminal, Index objects per pool name."""
 
-    def __init__(self, pool, lits, zeros, idxpool, gdim=2, embed=None):
+    def __init__(self, pool, lits, zeros, idxpool, gdim=2, embed=None, zerofi=()):
         import ufl
         from ufl.core.multiindex import Index
 
@@ -124,7 +127,10 @@ class World:
         # equals the spec's ordering (by name)
         self.idx = {n: Index() for n in sorted(idxpool)}
         self.idxname = {i.count(): n for n, i in self.idx.items()}
-        self.init = self.terms + self.lits + self.zeros
+        from ufl.classes import Zero
+
+        self.zerofi = [Zero((), tuple(self.idx[i].count() for i, _ in z), tuple(d for _, d in z)) for z in zerofi]
+        self.init = self.terms + self.lits + self.zeros + self.zerofi
         self.envs = []
         mode = getattr(pool, "mode", None)
         for e in range(getattr(pool, "nbase", pool.nenv) if mode else pool.nenv):
@@ -163,6 +169,19 @@ class World:
             return t[m["img"][1]] + t[m["img"][2]]
         if kind == "prod":
             return t[m["img"][1]] * t[m["img"][2]]
+        if kind == "const":
+            src = self.terms[m["src"] - 1]
+            k = m["img"][1]
+            if src.ufl_shape == ():
+                return k  # a plain Python number, as users write {f: 0}
+            if k == 0:
+                return self.ufl.zero(*src.ufl_shape)
+            import itertools
+
+            def nest(sh):
+                return k if not sh else [nest(sh[1:]) for _ in range(sh[0])]
+
+            return self.ufl.as_tensor(nest(src.ufl_shape))
         raise MachineryError("unknown image kind " + kind)
 
     def pipeline(self, a, k):
@@ -195,6 +214,8 @@ class World:
         """The coefficient (or a fixed component u[k], or a tuple) that derivative() differentiates by."""
         if isinstance(wname, (list, tuple)) and wname and wname[0] == "comp":
             return self.byname[wname[2]][tuple(wname[1])]
+        if isinstance(wname, (list, tuple)) and wname and wname[0] == "tuple":
+            return tuple(self.gateaux_coefficient(x) for x in wname[1])
         if isinstance(wname, (list, tuple)):
             return tuple(self.byname[n] for n in wname)
         return self.byname[wname]
@@ -249,6 +270,8 @@ def apply_op(w, op, args, mi):
         return ufl.sqrt(a)
     if op == "sign":
         return ufl.sign(a)
+    if op in MATH_OPS:
+        return getattr(ufl, op)(a)
     if op == "variable":
         return ufl.variable(a)
     if op in ("grad", "nabla_grad", "div", "nabla_div", "curl"):
@@ -260,7 +283,8 @@ def apply_op(w, op, args, mi):
         cd = None
         if len(g) > 2 and g[2]:
             cd = {w.byname[k]: w.byname[v] for k, v in g[2].items()}
-        return ufl.derivative(a, w.gateaux_coefficient(g[0]), w.byname[g[1]], coefficient_derivatives=cd)
+        direction = tuple(w.byname[n] for n in g[1]) if isinstance(g[1], (list, tuple)) else w.byname[g[1]]
+        return ufl.derivative(a, w.gateaux_coefficient(g[0]), direction, coefficient_derivatives=cd)
     if op == "seedvar":
         return ufl.variable(a)
     if op == "diff":
@@ -477,16 +501,24 @@ def build(w, prog):
     return objs[ninit:], None
 
 
-def observe(w, obj, is_bool=False):
-    """(shape, fi, [table per env]) of a real object, free indices renamed to spec names."""
+def observe_type(w, obj, is_bool=False):
+    """(shape, fi) of a real object, free indices renamed to spec names (fi None: a foreign index)."""
     sh = tuple(obj.ufl_shape) if not is_bool else ()
     fi_counts = tuple(obj.ufl_free_indices) if not is_bool else ()
     fid = tuple(obj.ufl_index_dimensions) if not is_bool else ()
     fi = []
     for c, d in zip(fi_counts, fid):
         if c not in w.idxname:
-            return sh, None, None  # a foreign index leaked into the result
+            return sh, None  # a foreign index leaked into the result
         fi.append((w.idxname[c], d))
+    return sh, fi
+
+
+def observe(w, obj, is_bool=False):
+    """(shape, fi, [table per env]) of a real object, free indices renamed to spec names."""
+    sh, fi = observe_type(w, obj, is_bool)
+    if fi is None:
+        return sh, None, None
     if isinstance(obj, PointEval):
         return sh, fi, point_tables(w, obj)
     if type(obj).__name__ == "Preprocessed":
@@ -546,6 +578,12 @@ def compare_inner(w, rec):
     obj = objs[-1]
     if not hasattr(obj, "ufl_shape"):
         return "mismatch:non-ufl-result", f"the operation returned a {type(obj).__name__} ({obj!r}), not a UFL expression"
+    # shape and free indices first: the value tables are read at the predicted components
+    sh, fi = observe_type(w, obj, rec.get("bool", False))
+    if list(sh) != list(rec["sh"]):
+        return "mismatch:shape", f"shape {sh} expected {tuple(rec['sh'])}"
+    if fi is None or [list(p) for p in fi] != [list(p) for p in rec["fi"]]:
+        return "mismatch:free-indices", f"free indices {fi} expected {rec['fi']}"
     try:
         sh, fi, tabs = observe(w, obj, rec.get("bool", False))
     except RealCodeError as exc:
